@@ -192,7 +192,17 @@ def variants(spec: dict) -> list:
     v("endpoint_kwargs", endpoint_kwargs=ek)
     v("seed", seed=(spec["seed"] + 1) % 2**32)
     v("seed-other-half", seed=(spec["seed"] + 2**31) % 2**32)
-    v("applied_filters", applied_filters=list(spec.get("applied_filters", [])) + [{"name": "path_length", "args": [1], "kwargs": {}}])
+    fl = list(spec.get("applied_filters", []))
+    v("applied_filters", applied_filters=fl + [{"name": "path_length", "args": [1], "kwargs": {}}])
+    # every recorded filter counts, also the bookkeeping ones the library records itself
+    v("applied_filters+collect_generation_meta", applied_filters=fl + [{"name": "collect_generation_meta", "args": [], "kwargs": {}}])
+    if fl:
+        v("applied_filters-last-removed", applied_filters=fl[:-1])
+        if len(fl) > 1 and fl[0] != fl[-1]:
+            v("applied_filters-reordered", applied_filters=fl[::-1])
+        last = dict(fl[-1])
+        last["kwargs"] = dict(last.get("kwargs", {}), __extra_kwarg__=1)
+        v("applied_filters-kwargs", applied_filters=fl[:-1] + [last])
     return out
 
 
